@@ -30,9 +30,9 @@ def run_kani(harnesses, profile, repo='/repo', jobs=12, timeout=1800, crate='kan
     """returns dict: harness -> {status, failed_checks, covers, time_s}, plus raw log"""
     crate_dir = os.path.join(ROOT, crate)
     sync_lock(crate_dir, repo)
-    cmd = ['cargo', 'kani', '--output-format=terse', '-j', str(jobs)]
+    cmd = ['cargo', 'kani', '--output-format=terse', '-j', str(jobs), '--exact']
     for h in harnesses:
-        cmd += ['--harness', h]
+        cmd += ['--harness', 'harness::' + h]
     if any('stub' in h for h in harnesses):
         pass
     t0 = time.time()
@@ -98,7 +98,7 @@ def run_kani(harnesses, profile, repo='/repo', jobs=12, timeout=1800, crate='kan
 def playback(harness, profile, repo='/repo', timeout=1800, crate='kani'):
     """re-run one failing harness with concrete playback; return list of (check description, [byte vectors])"""
     crate_dir = os.path.join(ROOT, crate)
-    cmd = ['cargo', 'kani', '--output-format=terse', '--harness', harness, '-Z', 'concrete-playback', '--concrete-playback=print']
+    cmd = ['cargo', 'kani', '--output-format=terse', '--exact', '--harness', 'harness::' + harness, '-Z', 'concrete-playback', '--concrete-playback=print']
     try:
         p = subprocess.run(cmd, cwd=crate_dir, env=env_for(profile), capture_output=True, text=True, timeout=timeout)
         log = p.stdout + p.stderr
